@@ -33,7 +33,7 @@ func (c02) Info(t core.Tier) core.Info {
 	}
 }
 
-func (c02) NumCases(t core.Tier) int { return tierN(t, 2400, 160000) }
+func (c02) NumCases(t core.Tier) int { return tierN(t, 24000, 600000) }
 
 // orderRecorder records the sequence in which nodes are reached (through probe tests) to fingerprint the field visit order.
 type orderRecorder struct{ seq []string }
